@@ -278,7 +278,7 @@ impl CaseC {
 pub fn execute_c(case: &CaseC, stats: &mut WireStats, digest: &mut u64) -> Option<Violation> {
   let p = Pipes::new();
   let mut writer = DevInputWriter::verif_from_fd(p.out_w);
-  let mut reader = DevInputReader { fd: p.kbd_r };
+  let mut reader = DevInputReader::verif_from_fd(p.kbd_r);
   let mut d = H::new();
   // (o) an earlier batch through the same writer, failed (queue full) or not
   if let Some((kind, eb)) = &case.before {
